@@ -420,6 +420,11 @@ func hazardProjects() []hazard {
 		{"update-map-noarg-function", mod(scratch.Tree{"p/p.go": "package p\n\ntype In struct{ A string; B int }\ntype Out struct{ A string; B int }\n\nfunc Def() string { return \"x\" }\nfunc DefErr() (string, error) { return \"x\", nil }\n\n// goverter:converter\n// goverter:update:ignoreZeroValueField\ntype C interface {\n\t// goverter:update target\n\t// goverter:map A | Def\n\tUpdate(source In, target *Out)\n\t// goverter:update target\n\t// goverter:map A | DefErr\n\tUpdateErr(source *In, target *Out) error\n}\n"})},
 		// D22: converter interfaces / methods / functions with type parameters
 		{"generic-converter-interface", mod(scratch.Tree{"p/p.go": "package p\n\n// goverter:converter\ntype Converter[T any] interface {\n\tConvert(source T) T\n\tList(source []T) []T\n}\n"})},
+		// declaration forms the comment stage accepts although the type-checked object is not a defined type: an interface
+		// ALIAS, a grouped type spec, an embedded interface, an interface with a type-set element (not usable as a converter)
+		{"converter-declared-as-alias", mod(scratch.Tree{"p/p.go": "package p\n\ntype In struct{ A int }\ntype Out struct{ A int }\n\n// goverter:converter\ntype C = interface {\n\tConvert(source In) Out\n}\n"})},
+		{"converter-declared-as-alias-of-alias", mod(scratch.Tree{"p/p.go": "package p\n\ntype In struct{ A int }\ntype Out struct{ A int }\n\ntype C interface {\n\tConvert(source In) Out\n}\n\n// goverter:converter\ntype D = C\n"})},
+		{"converter-declared-in-group-and-embedded", mod(scratch.Tree{"p/p.go": "package p\n\ntype In struct{ A int }\ntype Out struct{ A int }\n\ntype Base interface {\n\tConvert(source In) Out\n}\n\ntype (\n\t// goverter:converter\n\tC interface {\n\t\tBase\n\t\tOther(source []In) []Out\n\t}\n\t// goverter:converter\n\tE interface{ ~int | ~string }\n)\n"})},
 		{"generic-extend-and-default", mod(scratch.Tree{"p/p.go": "package p\n\ntype In struct{ A int }\ntype Out struct{ A int }\n\nfunc Id[T any](v T) T { return v }\nfunc New[T any]() T { var z T; return z }\n\n// goverter:converter\n// goverter:extend Id\ntype C interface {\n\t// goverter:default New\n\t// goverter:map A | Id\n\tConvert(source In) Out\n}\n"})},
 	}
 }
